@@ -701,6 +701,9 @@ def build_explainer(world, ecfg):
             kw["dynamic_setting"] = ecfg["dynamic"]
         if "alpha" in ecfg:
             kw["smoothing_alpha"] = alpha_value(world, ecfg["alpha"])
+            if ecfg.get("alpha_type") and ecfg["alpha"] == [1, 1]:
+                # alpha = 1, the closed end of (0, 1], carried by a narrow NumPy integer
+                kw["smoothing_alpha"] = getattr(np, ecfg["alpha_type"])(1)
         if ecfg["cls"] == "sage" and "lbib" in ecfg:
             kw["loss_bigger_is_better"] = ecfg["lbib"]
     if ecfg["cls"] == "interval":
